@@ -39,7 +39,8 @@ EXTENDS Integers, Sequences, FiniteSets, TLC, Emit
 CONSTANTS
   Kinds,       \* enabled case families, subset of
                \*   {"prime","zc","ext","root","ue","shift","ls","est"}
-  Dev,         \* [PrimeTableEndsAt1009, ZeroPadExtension, NSquaredPhase, ShiftDenominator8,
+  Dev,         \* (+ NormalizeFlagSplit, ExtraDimByIdentity, and the RefSession flags)
+               \* [PrimeTableEndsAt1009, ZeroPadExtension, NSquaredPhase, ShiftDenominator8,
                \*  TapWindowOffByOne, LsGramNotConjugated : BOOLEAN]
   Seed,        \* seeds the in-spec LCG
   MaxSize,     \* largest sequence size of the numerology (1200)
@@ -229,6 +230,21 @@ RootRec(size, w) ==
 RootCase == /\ "root" \in Kinds /\ Fresh
             /\ \E size \in RootSizes : \E w \in 1..3 : (w = 1 \/ size \in RootFull) /\ c' = RootRec(size, w)
 
+(* ---- boolean options and the FORM of their value ------------------------------------------
+   Every boolean option of the sequence and estimator classes (normalize, extra_dimension) can reach the
+   code as the Python singleton (form "bool"), as a numpy bool ("np": an element of a parameter array, a
+   comparison result) or as an integer 0 / 1 ("int").  Whatever form it has, it means its truth value, and
+   all the places that look at one flag must agree: the sequence constructor that normalises, the estimator
+   that compensates the normalisation, the estimator that decides whether the cover-code dimension is there. *)
+FlagForms == <<"bool", "np", "int">>
+ByTruth(val, form) == val                               \* `if flag:`
+ByIdentity(val, form) == val /\ form = "bool"           \* `if flag is True:` - only the singleton passes
+\* sequence side / estimator side of `normalize`
+SeqNormalises(val, form) == ByTruth(val, form)
+EstCompensates(val, form) == IF Dev.NormalizeFlagSplit THEN ByIdentity(val, form) ELSE ByTruth(val, form)
+\* `extra_dimension is False` (identity) sees a flattened input only for the singleton False
+SeesFlattened(extradim, form) == IF Dev.ExtraDimByIdentity THEN (~extradim /\ form = "bool") ELSE ~extradim
+
 (* ---- SrsUeSequence / DmrsUeSequence: root sequence times the phase ramp, cover code,
         optional normalisation (amplitude 1/sqrt(size), reported as norm2 = size) --------- *)
 Covers == << <<>>, <<1, 1>>, <<1, -1>>, <<-1, 1>> >>
@@ -238,7 +254,8 @@ UeRec(fam, size, nrm, cv, ncs) ==
       u   == 1 + Pick(size + 7 * ncs, 3, nzc - 1)
   IN [kind |-> "ue", fam |-> fam, size |-> size, u |-> u, nzc |-> nzc, ncs |-> ncs,
       den |-> D, rden |-> RampDen(D), cover |-> Covers[cv], normalize |-> nrm,
-      norm2 |-> IF nrm THEN size ELSE 1,
+      flagform |-> FlagForms[1 + Pick(size + 5 * ncs + cv, 7, 3)],
+      norm2 |-> IF SeqNormalises(nrm, FlagForms[1 + Pick(size + 5 * ncs + cv, 7, 3)]) THEN size ELSE 1,
       e |-> ExtSeq(ZcSeq(nzc, u), size), ramp |-> Ramp(ncs, D, size)]
 UeCase == /\ "ue" \in Kinds /\ Fresh
           /\ \E fam \in {"srs", "dmrs"} : \E size \in UeSizes : \E nrm \in BOOLEAN :
@@ -362,6 +379,7 @@ ScenarioX(f, L, nrx, v, ov) ==
       asarray |-> asarr,                                   \* hand the estimator a plain array
       normalize |-> IF ov.has THEN ov.normalize ELSE ~asarr /\ Pick(k, 2, 2) = 1,
       extradim |-> Pick(k, 17, 2) = 1,                     \* OCC: 3-d input or flattened
+      flagform |-> FlagForms[1 + Pick(k, 19, 3)],          \* the form in which both flags are handed over
       u |-> IF ov.has THEN ov.u ELSE IF L > 24 THEN 1 + Pick(k, 18, nzc - 1) ELSE Pick(k, 18, 30),
       keep |-> K, ct |-> ct, cover |-> tcov, taps |-> ttaps,
       others |-> TLCEval([q \in 1..ni |-> intf(q)]) \o same]
@@ -390,8 +408,14 @@ EstTaps(sc) == [a \in 1..sc.nrx |->
        ps == SortedSeq(nz)
    IN [i \in 1..Len(ps) |-> <<ps[i], YTap(sc, a, ps[i])>>]]
 
+\* what the flags make of the call: the estimate is the kept taps times scaleNum / scaleDen (the estimator multiplies by
+\* the size when it believes the sequence is normalised, the sequence has squared amplitude 1 / scaleDen), and the OCC
+\* estimator must see the layout the caller used
+FlagFields(sc) == [scaleNum |-> IF ~sc.asarray /\ EstCompensates(sc.normalize, sc.flagform) THEN sc.size ELSE 1,
+                   scaleDen |-> IF SeqNormalises(sc.normalize, sc.flagform) THEN sc.size ELSE 1,
+                   flatSeen |-> SeesFlattened(sc.extradim, sc.flagform)]
 EstRec(f, L, nrx, v) == LET sc == Scenario(f, L, nrx, v)
-                       IN [kind |-> "est", sc |-> sc, est |-> EstTaps(sc), scales |-> ObsScales]
+                       IN [kind |-> "est", sc |-> sc, est |-> EstTaps(sc), scales |-> ObsScales, flags |-> FlagFields(sc)]
 EstCase == /\ "est" \in Kinds /\ Fresh
            /\ \E f \in EstFams : \E L \in EstLs : \E nrx \in EstNrx : \E v \in EstVars :
                 (L > 24 \/ L % DOf(f) = 0) /\ c' = EstRec(f, L, nrx, v)
@@ -477,6 +501,11 @@ EstimateExact == Is("est") =>
       /\ Len(c.est[a]) = Len(c.sc.taps)
       /\ \A i \in 1..Len(c.est[a]) :
            \E t \in 1..Len(c.sc.taps) : c.sc.taps[t].d = c.est[a][i][1] /\ c.sc.taps[t].v[a] = c.est[a][i][2]
+
+\* every place that looks at a flag takes it for the same thing, whatever the form of its value
+FlagAgreement == Is("est") =>
+   /\ c.flags.scaleNum = c.flags.scaleDen
+   /\ c.sc.fam = "occ" => (c.flags.flatSeen <=> ~c.sc.extradim)
 
 \* the estimators are homogeneous: an observation scaled by cf (every user's taps scaled) gives the estimate
 \* scaled by cf - no absolute threshold anywhere
